@@ -9,6 +9,13 @@ deep copy held in a SimpleNamespace.  Monitors:
   M3 fresh read   the next db_session (and one extra at the end of the case) reads attribute values == plain
   M4 reads        a read step leaves (_status_, _wbits_) unchanged; a read-only session ends with _status_ == 'loaded'
                   and the DB-API recorder saw no INSERT/UPDATE/DELETE for it; a bystander object is never touched
+  M5 aliasing     every case works on TWO entity objects a and b (12 slots: data, data2, ia, ia2, sa, fa on each).
+                  Copy steps store a value READ from one slot in another slot: `b.data = a.data`, `b.ia = a.ia`,
+                  `a.data2 = a.data['k']`, `b.data['x'] = a.data['y']`, `.append(a.ia)`, `.update(a.data)`, ... and
+                  later steps change it in place through the destination and through the source, over flushes,
+                  commits and sessions.  The reference takes an independent deep copy at the moment of the
+                  assignment (a persisted attribute holds a value, not a reference).  M1-M3 run over all 12 slots,
+                  and a mutation of one object must leave the other object's (_status_, _wbits_) untouched.
 
 Known-finding discipline: a persistence mismatch is re-judged with a small *deviation model* of which mutations Pony
 does not notice (per attribute `dirty` bit: alias-form `x op= v`, or a change made through a container that Pony
@@ -32,13 +39,16 @@ META = {
                   'every run) plus seeded random multi-session mutation histories; nothing is proved beyond what ran.',
     'level_note': 'Trusted base: CPython list/dict semantics on the plain copy, json.loads on the raw column text, '
                   'the sqlite3 module. Aliases are taken from the attribute immediately before use (an alias held '
-                  'across a re-assignment of its parent slot is outside the model: Pony copies on assignment).',
-    'rule': 'A case = initial Json document (dict/list nesting depth 0..3) + Int/Str/FloatArray values, start state '
+                  'across a re-assignment of its parent slot is outside the model). Values copied between objects '
+                  'and attributes are in the model: the reference deep-copies at assignment time.',
+    'rule': 'A case = two entity objects a, b with initial Json documents (dict/list nesting depth 0..3) and '
+            'Int/Str/FloatArray values in 6 attributes each; copy steps assign/insert a value read from one '
+            '(object, attribute) into another or the same one (whole value and nested sub-value); start state '
             '(loaded | created in the same session), 1..3 sessions of steps: mutation (item/slice assign+delete, '
             'append/extend/insert/pop/remove/sort/reverse/clear, update/setdefault/pop/popitem/clear, += *= |= in '
             'direct, parent and alias form, on a container at depth 0..3, incl. operations that raise), whole-value '
-            'assignment, read, flush, commit. Fingerprint = start state + per step (kind, attr, depth, form, op, '
-            'argument kind, outcome class); a case is non-trivial if at least one mutation succeeded or it is a '
+            'assignment, read, flush, commit. Fingerprint = start state + per step (kind, slot, depth, form, op, '
+            'argument kind, copy class cross_object|cross_attr|same_slot, outcome class); a case is non-trivial if at least one mutation succeeded or it is a '
             'read-only case with at least one read.',
     'assumptions': [
         'SQLite only (arrays and Json are stored as JSON text there); PostgreSQL native json/array storage not run',
@@ -46,6 +56,9 @@ META = {
         'list.sort() calls that would leave a partially reordered list after raising are not generated',
         'equality is Python == (True == 1, 1 == 1.0); type-only differences are counted, not flagged',
         'an alias is taken from the attribute right before it is used; stale aliases are out of scope',
+        'top-level `b.data |= a.data[k]` / `b.data += a.data[k]` with a value read from another slot is not generated '
+        '(open finding C28-TOPLEVEL-AUGASSIGN-NESTED-UNWRAPPED: the other slot\'s nested tracked containers get shared); '
+        'a value inserted through a container Pony left unwrapped is passed as a detached copy',
         'documents are trees: `*= n` with n >= 2 is not generated on lists that hold containers (it would create '
         'shared sub-objects, which JSON cannot represent) and arguments never share sub-objects',
         'a TypeError from array item validation (also for slice assignment on arrays, which Pony rejects) is loud: '
@@ -61,7 +74,25 @@ F_ALIAS = 'C28-ALIAS-AUGASSIGN-UNTRACKED'
 F_ITER = 'C28-ITERABLE-ARG-NESTED-UNWRAPPED'
 F_TOP = 'C28-TOPLEVEL-AUGASSIGN-NESTED-UNWRAPPED'
 
-ATTRS = ('data', 'ia', 'sa', 'fa')
+BASE_ATTRS = ('data', 'data2', 'ia', 'ia2', 'sa', 'fa')
+# A case works on two entity objects a and b of the same entity.  A *slot* names (object, attribute): 'ia' is a.ia,
+# 'b_ia' is b.ia.  Values read from one slot are assigned to / inserted into other slots (cross-object and
+# cross-attribute copies); the reference takes an independent deep copy at that moment.
+ATTRS = BASE_ATTRS + tuple('b_' + x for x in BASE_ATTRS)
+
+
+def base(slot):
+    return slot[2:] if slot.startswith('b_') else slot
+
+
+def kind_of(slot):
+    """'data' for Json slots, else the array kind 'ia' | 'sa' | 'fa'."""
+    b = base(slot)
+    return {'data2': 'data', 'ia2': 'ia'}.get(b, b)
+
+
+def is_json(slot):
+    return kind_of(slot) == 'data'
 AUG = {'iadd': operator.iadd, 'imul': operator.imul, 'ior': operator.ior}
 
 SCALARS = [None, True, False, 0, 1, -1, 2, 7, 2 ** 53 + 1, -10 ** 18, 10 ** 25, 1.5, -2.25, 1e100, 0.1,
@@ -110,9 +141,9 @@ def gen_homog_list(rng):
 
 def gen_array(rng, attr, bad=False):
     n = rng.choice((0, 1, 2, 3, 4))
-    items = [rng.choice(ITEMS[attr]) for _ in range(n)]
+    items = [rng.choice(ITEMS[kind_of(attr)]) for _ in range(n)]
     if bad:
-        items.insert(rng.randrange(len(items) + 1), rng.choice(BAD_ITEMS[attr]))
+        items.insert(rng.randrange(len(items) + 1), rng.choice(BAD_ITEMS[kind_of(attr)]))
     return items
 
 
@@ -152,6 +183,37 @@ def resolve(holder, attr, path):
     return v
 
 
+class _Live(object):
+    """A value taken from a slot of the same holder, handed on as it is (on the Pony side: the tracked object)."""
+    def __init__(self, v): self.v = v
+
+
+def deref(holder, x):
+    """{'$ref': [slot, path]} -> the value currently at that place.  Pony side: the live TrackedDict/TrackedList/
+    TrackedArray itself (that is what `b.data = a.data` passes).  Reference side: an independent deep copy taken now,
+    because a persisted attribute holds a value, not a reference to another attribute's value."""
+    if isinstance(x, dict) and '$ref' in x:
+        slot, path = x['$ref']
+        v = resolve(holder, slot, path)
+        if isinstance(holder, types.SimpleNamespace): v = tree_copy(v)
+        return _Live(v)
+    return x
+
+
+def mat(holder, x, kind):
+    x = deref(holder, x)
+    if isinstance(x, _Live):
+        v = x.v
+        if getattr(holder, '_detach', False):
+            # the receiving container is one that Pony left unwrapped (only the listed findings produce those): a plain
+            # list/dict would store the other slot's live tracked object itself. That region is already judged as
+            # "unnoticed" by the deviation model; a detached copy keeps the rest of the case judgeable.
+            # (get_untracked() returns unwrapped sub-containers as they are, hence the extra deepcopy)
+            v = copy.deepcopy(v.get_untracked() if hasattr(v, 'get_untracked') else v)
+        return v
+    return materialize(x, kind)
+
+
 # ----------------------------------------------------------------------------------------------------------------
 # the one driver that is applied to both the entity object and the plain namespace
 
@@ -161,7 +223,7 @@ def exec_mut(holder, st):
     kind = st.get('argkind')
     if op in AUG:
         fn = AUG[op]
-        arg = materialize(a[0], kind)
+        arg = mat(holder, a[0], kind)
         if form == 'alias':                       # x = p.data[..]; x op= arg
             x = resolve(holder, attr, path)
             x = fn(x, arg)
@@ -175,7 +237,7 @@ def exec_mut(holder, st):
         return None
     target = resolve(holder, attr, path)
     if op == 'setitem':
-        target[dec_key(a[0])] = materialize(a[1], kind)
+        target[dec_key(a[0])] = mat(holder, a[1], kind)
         return None
     if op == 'delitem':
         del target[dec_key(a[0])]
@@ -185,11 +247,11 @@ def exec_mut(holder, st):
         if kw.get('key') == 'canon': kw['key'] = canon
         return target.sort(**kw)
     if op == 'update':
-        args = [materialize(x, kind) for x in a]
+        args = [mat(holder, x, kind) for x in a]
         return target.update(*args, **tree_copy(st.get('kw', {})))
     if op == 'extend':
-        return target.extend(materialize(a[0], kind))
-    return getattr(target, op)(*tree_copy(a))
+        return target.extend(mat(holder, a[0], kind))
+    return getattr(target, op)(*[mat(holder, x, None) for x in a])
 
 
 def receiving_container(holder, st):
@@ -259,12 +321,12 @@ def pick_slice(rng, n):
 
 
 def gen_item(rng, attr, depth_left, bad=False):
-    if attr == 'data': return gen_value(rng, depth_left)
-    return rng.choice(BAD_ITEMS[attr] if bad else ITEMS[attr])
+    if is_json(attr): return gen_value(rng, depth_left)
+    return rng.choice(BAD_ITEMS[kind_of(attr)] if bad else ITEMS[kind_of(attr)])
 
 
 def gen_items(rng, attr, depth_left, bad=False):
-    if attr == 'data':
+    if is_json(attr):
         return [gen_value(rng, depth_left) for _ in range(rng.choice((0, 1, 1, 2, 3)))]
     return gen_array(rng, attr, bad)
 
@@ -275,9 +337,14 @@ DICT_OPS = ['setitem', 'delitem', 'update', 'update_pairs', 'update_kw', 'setdef
             'popitem', 'clear', 'ior']
 
 
+def pick_slot(rng):
+    b = rng.choice(('data', 'data', 'data', 'data2', 'ia', 'ia2', 'sa', 'fa'))
+    return ('b_' + b) if rng.random() < 0.4 else b
+
+
 def gen_mut(rng, plain, attr=None, opname=None, form=None, path=None, wild=None, argkind=None):
     """One mutation step applicable (mostly) to the current plain state."""
-    attr = attr or rng.choice(('data', 'data', 'data', 'ia', 'sa', 'fa'))
+    attr = attr or pick_slot(rng)
     root = getattr(plain, attr)
     if path is None:
         cs = list(containers(root))
@@ -285,9 +352,9 @@ def gen_mut(rng, plain, attr=None, opname=None, form=None, path=None, wild=None,
     else:
         target = resolve(plain, attr, path)
     path = list(path)
-    depth_left = max(0, 3 - len(path) - 1) if attr == 'data' else 0
+    depth_left = max(0, 3 - len(path) - 1) if is_json(attr) else 0
     if wild is None: wild = rng.random() < 0.12
-    bad = attr != 'data' and rng.random() < 0.08
+    bad = not is_json(attr) and rng.random() < 0.08
     is_list = isinstance(target, list)
     opname = opname or rng.choice(LIST_OPS if is_list else DICT_OPS)
     st = {'k': 'mut', 'attr': attr, 'path': path, 'form': 'direct'}
@@ -383,7 +450,7 @@ def gen_mut(rng, plain, attr=None, opname=None, form=None, path=None, wild=None,
 
 
 def gen_read(rng, plain):
-    attr = rng.choice(('data', 'data', 'data', 'ia', 'sa', 'fa'))
+    attr = pick_slot(rng)
     root = getattr(plain, attr)
     path, t = rng.choice(list(containers(root)))
     st = {'k': 'read', 'attr': attr, 'path': list(path), 'args': []}
@@ -394,7 +461,7 @@ def gen_read(rng, plain):
             st['args'] = [enc_key(pick_slice(rng, n)) if rng.random() < 0.3 else pick_index(rng, n, rng.random() < 0.15)]
         elif op in ('in', 'count', 'index'):
             st['args'] = [copy.deepcopy(rng.choice(t)) if t and rng.random() < 0.7 else gen_item(rng, attr, 0)]
-            if isinstance(st['args'][0], (list, dict)) and attr != 'data': st['args'] = [0]
+            if isinstance(st['args'][0], (list, dict)) and not is_json(attr): st['args'] = [0]
         elif op in ('eq', 'ne'):
             st['args'] = [copy.deepcopy(t) if rng.random() < 0.5 else gen_items(rng, attr, 1)]
         elif op == 'concat':
@@ -417,7 +484,84 @@ def gen_init(rng, depth=None):
     if depth == 0:
         data = [gen_scalar(rng) for _ in range(rng.choice((0, 2, 3)))] if isinstance(data, list) else \
             {k: gen_scalar(rng) for k in rng.sample(KEYS, rng.choice((0, 2, 3)))}
-    return {'data': data, 'ia': gen_array(rng, 'ia'), 'sa': gen_array(rng, 'sa'), 'fa': gen_array(rng, 'fa')}
+    init = {'data': data, 'ia': gen_array(rng, 'ia'), 'sa': gen_array(rng, 'sa'), 'fa': gen_array(rng, 'fa'),
+            'data2': gen_container(rng, rng.choice((1, 2))), 'ia2': gen_array(rng, 'ia'),
+            'b_data': gen_container(rng, rng.choice((1, 2, 3))), 'b_data2': gen_container(rng, 1)}
+    for k in ('ia', 'ia2', 'sa', 'fa'): init['b_' + k] = gen_array(rng, k)
+    return init
+
+
+DEFAULT_INIT = {'data': {}, 'data2': {'other': [1, {'x': 2}]}, 'ia': [], 'ia2': [4], 'sa': [], 'fa': [],
+                'b_data': {'t': [1, 2], 'u': {'v': 'w'}}, 'b_data2': [], 'b_ia': [5, 6], 'b_ia2': [], 'b_sa': ['s'],
+                'b_fa': [0.5]}
+
+
+def fill_init(init):
+    out = tree_copy(DEFAULT_INIT)
+    out.update(tree_copy(init))
+    return out
+
+
+def gen_copy(rng, plain):
+    """A step that stores a value READ from one slot into another slot (or elsewhere in the same one): whole-value
+    assignment `b.data = a.data`, `b.ia = a.ia`, `p.data2 = p.data['k']`, or insertion of a (sub-)value into a Json
+    container `b.data['x'] = a.data['y']`, `.append(a.ia)`, `.update(a.data)`, `p.data['l'] += b.data['m']`."""
+    for _ in range(8):
+        src = pick_slot(rng)
+        cs = list(containers(getattr(plain, src)))
+        spath, sval = rng.choice(cs) if rng.random() < 0.55 else cs[0]
+        if len(json.dumps(sval)) > 600: continue
+        ref = {'$ref': [src, list(spath)]}
+        if rng.random() < 0.45:
+            # whole-value assignment to a compatible slot
+            if is_json(src): cands = [x for x in ATTRS if is_json(x)]
+            elif spath: continue
+            else: cands = [x for x in ATTRS if kind_of(x) == kind_of(src)] + [x for x in ATTRS if is_json(x)][:2]
+            dst = rng.choice(cands)
+            return {'k': 'assign', 'attr': dst, 'ref': ref['$ref']}
+        dst = rng.choice([x for x in ATTRS if is_json(x)])
+        dpath, dval = rng.choice(list(containers(getattr(plain, dst))))
+        st = {'k': 'mut', 'attr': dst, 'path': list(dpath), 'form': 'direct'}
+        if isinstance(dval, dict):
+            op = rng.choice(('setitem', 'setitem', 'setdefault', 'update', 'ior') if isinstance(sval, dict)
+                            else ('setitem', 'setitem', 'setdefault'))
+            if op in ('setitem', 'setdefault'): st.update(op=op, args=[rng.choice(KEYS), ref])
+            elif op == 'update': st.update(op='update', args=[ref])
+            else: st.update(op='ior', args=[ref], form='parent')
+            # top-level `b.data |= a.data[..]` is not generated: dict.__ior__/list.__iadd__ are not intercepted (listed
+            # finding C28-TOPLEVEL-AUGASSIGN-NESTED-UNWRAPPED), there the other object's nested tracked containers end
+            # up shared, which the rewrite-based classification of that finding cannot judge
+            if st['op'] == 'ior' and not dpath: st.update(op='update', form='direct')
+        else:
+            n = len(dval)
+            op = rng.choice(('append', 'append', 'insert', 'setitem', 'extend', 'iadd') if isinstance(sval, list)
+                            else ('append', 'append', 'insert', 'setitem'))
+            if op == 'setitem' and not n: op = 'append'
+            if op == 'append': st.update(op='append', args=[ref])
+            elif op == 'insert': st.update(op='insert', args=[rng.choice((0, 1, -1, n)), ref])
+            elif op == 'setitem': st.update(op='setitem', args=[rng.randrange(-n, n), ref])
+            elif op == 'extend': st.update(op='extend', args=[ref])
+            else: st.update(op='iadd', args=[ref], form='parent')
+            if st['op'] == 'iadd' and not dpath: st.update(op='extend', form='direct')
+        return st
+    return {'k': 'flush'}
+
+
+def step_ref(st):
+    """The [slot, path] a step copies from, if any."""
+    if st.get('k') == 'assign': return st.get('ref')
+    for x in st.get('args', []) if st.get('k') == 'mut' else []:
+        if isinstance(x, dict) and '$ref' in x: return x['$ref']
+    return None
+
+
+def copy_class(st):
+    r = step_ref(st)
+    if r is None: return None
+    src, dst = r[0], st['attr']
+    if src.startswith('b_') != dst.startswith('b_'): return 'cross_object'
+    if base(src) != base(dst): return 'cross_attr'
+    return 'same_slot'
 
 
 # ----------------------------------------------------------------------------------------------------------------
@@ -440,18 +584,25 @@ class Env(object):
             ia = orm.Optional(orm.IntArray)
             sa = orm.Optional(orm.StrArray)
             fa = orm.Optional(orm.FloatArray)
+            data2 = orm.Optional(orm.Json)
+            ia2 = orm.Optional(orm.IntArray)
         self.Doc = Doc
         db.bind('sqlite', self.file, create_db=True, factory=self.rec.factory())
         db.generate_mapping(create_tables=True)
         self.raw = sqlite3.connect(self.file, isolation_level=None)
-        cols = [getattr(Doc, a).column for a in ATTRS]
+        cols = [getattr(Doc, a).column for a in BASE_ATTRS]
         self.raw_sql = 'select %s from "%s" where "%s" = ?' % (
             ', '.join('"%s"' % c for c in cols), Doc._table_, Doc.id.column)
 
-    def raw_read(self, pk):
-        row = self.raw.execute(self.raw_sql, (pk,)).fetchone()
-        if row is None: return None
-        return {a: (json.loads(v) if isinstance(v, str) else v) for a, v in zip(ATTRS, row)}
+    def raw_read(self, pks):
+        """pks = (pk of a, pk of b) -> {slot: decoded column}"""
+        out = {}
+        for prefix, pk in zip(('', 'b_'), pks):
+            row = self.raw.execute(self.raw_sql, (pk,)).fetchone()
+            if row is None: return None
+            for a, v in zip(BASE_ATTRS, row):
+                out[prefix + a] = json.loads(v) if isinstance(v, str) else v
+        return out
 
     def writes_since(self, mark):
         return [e['sql'] for e in self.rec.statements(since=mark)
@@ -472,6 +623,21 @@ class Mismatch(Exception):
     def __init__(self, kind, info):
         Exception.__init__(self, kind)
         self.kind, self.info = kind, info
+
+
+class Pair(object):
+    """The two live entity objects behind one holder: attribute 'ia' is a.ia, 'b_ia' is b.ia."""
+    _detach = False
+    def __init__(self, a, b):
+        object.__setattr__(self, '_a', a)
+        object.__setattr__(self, '_b', b)
+    def ent(self, slot):
+        return self._b if slot.startswith('b_') else self._a
+    def __getattr__(self, slot):
+        return getattr(self.ent(slot), base(slot))
+    def __setattr__(self, slot, v):
+        if slot.startswith('_'): object.__setattr__(self, slot, v)
+        else: setattr(self.ent(slot), base(slot), v)
 
 
 def untracked_view(TrackedValue, v):
@@ -517,16 +683,16 @@ class CaseRun(object):
     # -- the deviation model ---------------------------------------------------------------------------------------
     def model_flush(self, plain):
         for a in ATTRS:
-            if self.pending_insert or self.dirty[a]:
+            if (self.pending_insert and not a.startswith('b_')) or self.dirty[a]:
                 self.persisted[a] = copy.deepcopy(getattr(plain, a))
                 self.dirty[a] = False
                 self.unnoticed[a] = []
         self.pending_insert = False
 
-    def commit_point(self, pk, plain, where):
+    def commit_point(self, pks, plain, where):
         """M2: raw read after a commit; returns False if the case must stop (finding or violation recorded)."""
         self.commit_no += 1
-        dbv = self.env.raw_read(pk)
+        dbv = self.env.raw_read(pks)
         self.count('monitor.commit_points')
         if dbv is None:
             self.result = ('violation', 'row_missing', {'where': where}); return False
@@ -556,14 +722,23 @@ class CaseRun(object):
             rc = receiving_container(obj, st)
             recv_tracked = rc is None or isinstance(rc, TV)
         except Exception: pass
-        status_before = obj._status_
+        ent = obj.ent(attr)
+        other = obj._a if ent is obj._b else obj._b
+        status_before = ent._status_
+        other_before = (other._status_, other._wbits_)
+        obj._detach = not recv_tracked
+        if not recv_tracked and step_ref(st) is not None: self.count('note.ref_into_unwrapped_receiver')
         try: t_res = exec_mut(obj, st)
         except Exception as e: t_exc = e
+        finally: obj._detach = False
+        if (other._status_, other._wbits_) != other_before:
+            raise Mismatch('other_object_marked', {'step': st, 'before': other_before,
+                                                   'after': (other._status_, other._wbits_)})
         bad_arg = st.get('bad_arg', False)
         if p_exc is not None and t_exc is not None:
             oc = 'both_raise'
             if type(p_exc) is not type(t_exc):
-                if attr == 'data':
+                if is_json(attr):
                     raise Mismatch('exception_class', {'step': st, 'plain': repr(p_exc), 'tracked': repr(t_exc)})
                 self.count('outcome.exc_class_differs_array_validation')
             self.count('outcome.both_raise.' + type(p_exc).__name__)
@@ -574,7 +749,7 @@ class CaseRun(object):
             oc = 'pony_loud'
             setattr(plain, attr, before)
             self.count('outcome.pony_loud.' + type(t_exc).__name__)
-            if attr == 'data': self.count('outcome.pony_loud_on_json')
+            if is_json(attr): self.count('outcome.pony_loud_on_json')
         else:
             oc = 'ok'
             self.n_mut_ok += 1
@@ -582,7 +757,10 @@ class CaseRun(object):
             self.count('mut.%s.%s.d%d' % (st['op'], st.get('form', 'direct'), len(st['path'])))
             self.count('mut_form.' + st.get('form', 'direct'))
             if len(st['path']) >= 2: self.count('mut_depth_ge2')
-            if attr != 'data': self.count('mut_on_array')
+            if not is_json(attr): self.count('mut_on_array')
+            if attr.startswith('b_'): self.count('mut_on_second_object')
+            cc = copy_class(st)
+            if cc: self.count('xcopy.' + cc); self.count('xcopy.nested_insert')
             if not self.same(untracked_view(TV, t_res), p_res):
                 raise Mismatch('return_value', {'step': st, 'plain': p_res, 'tracked': untracked_view(TV, t_res)})
             # deviation model: which successful mutations is Pony known not to notice
@@ -591,16 +769,18 @@ class CaseRun(object):
             elif not recv_tracked: shape = 'untracked_receiver'
             if shape is None: self.dirty[attr] = True
             else: self.unnoticed[attr].append({'shape': shape, 'step': st})
-            if shape is None and not self.pending_insert and status_before in ('loaded', 'updated', 'inserted') \
-                    and obj._status_ != 'modified':
-                raise Mismatch('status_not_modified', {'step': st, 'status': obj._status_})
-        if oc != 'ok' and obj._status_ != status_before:
+            pending = self.pending_insert and not attr.startswith('b_')
+            if shape is None and not pending and status_before in ('loaded', 'updated', 'inserted') \
+                    and ent._status_ != 'modified':
+                raise Mismatch('status_not_modified', {'step': st, 'status': ent._status_})
+        if oc != 'ok' and ent._status_ != status_before:
             self.count('note.failed_op_changed_status')
         return oc
 
     def do_read(self, obj, plain, st):
         TV = self.env.TrackedValue
-        sb = (obj._status_, obj._wbits_)
+        def snap(): return (obj._a._status_, obj._a._wbits_, obj._b._status_, obj._b._wbits_)
+        sb = snap()
         p_exc = t_exc = None
         try: p = exec_read(plain, st, False)
         except Exception as e: p_exc = e
@@ -617,8 +797,8 @@ class CaseRun(object):
             if st['op'] == 'repr': t, p = 0, 0       # text of reprs is equal for list/dict subclasses; not compared
             if not self.same(t, p):
                 raise Mismatch('read_result', {'step': st, 'plain': p, 'tracked': repr(t)})
-        if (obj._status_, obj._wbits_) != sb:
-            raise Mismatch('read_marked_modified', {'step': st, 'before': sb, 'after': (obj._status_, obj._wbits_)})
+        if snap() != sb:
+            raise Mismatch('read_marked_modified', {'step': st, 'before': sb, 'after': snap()})
         return 'raise' if p_exc is not None else 'ok'
 
     # -- sessions ------------------------------------------------------------------------------------------------
@@ -635,24 +815,26 @@ class CaseRun(object):
         rng = self.rng
         if sess_plan['readonly']: return gen_read(rng, plain)
         r = rng.random()
-        if r < 0.62: return gen_mut(rng, plain)
-        if r < 0.74: return gen_read(rng, plain)
-        if r < 0.86: return {'k': 'flush'}
+        if r < 0.54: return gen_mut(rng, plain)
+        if r < 0.64: return gen_copy(rng, plain)
+        if r < 0.75: return gen_read(rng, plain)
+        if r < 0.87: return {'k': 'flush'}
         if r < 0.94: return {'k': 'commit'}
         attr = rng.choice(ATTRS)
-        val = gen_container(rng, rng.choice((1, 2, 3))) if attr == 'data' else gen_array(rng, attr)
+        val = gen_container(rng, rng.choice((1, 2, 3))) if is_json(attr) else gen_array(rng, attr)
         return {'k': 'assign', 'attr': attr, 'value': val}
 
     def run(self):
         env, orm = self.env, self.env.orm
         Doc = env.Doc
+        TV = env.TrackedValue
         if self.script is not None:
-            init, start = self.script['init'], self.script['start']
+            init, start = fill_init(self.script['init']), self.script['start']
             sessions = self.script['sessions']
             plan = [None] * len(sessions)
         else:
             plan = self.plan or self.gen_session_plan()
-            init = self.case['init'] or gen_init(self.rng)
+            init = fill_init(self.case['init'] or gen_init(self.rng))
             start = self.case['start'] or self.rng.choice(('loaded', 'loaded', 'created'))
             sessions = None
         self.case['init'], self.case['start'] = init, start
@@ -660,13 +842,25 @@ class CaseRun(object):
         self.persisted = copy.deepcopy(init)
         self.fp.append(start)
         bystander_init = {'data': {'bystander': [1, {'x': 2}]}, 'ia': [1], 'sa': ['s'], 'fa': [0.5]}
+
+        def kwargs(prefix):
+            return {a: tree_copy(init[prefix + a]) for a in BASE_ATTRS}
+
+        def fresh_check(pair, where):
+            # M3: what a fresh session reads equals the plain copies, for both objects
+            self.count('monitor.fresh_session_reads')
+            for a in ATTRS:
+                if not self.same(getattr(pair, a), getattr(plain, a)):
+                    raise Mismatch('fresh_session_value', {'attr': a, 'session': where,
+                                   'read': untracked_view(TV, getattr(pair, a)), 'plain': getattr(plain, a)})
         try:
             with orm.db_session:
                 by = Doc(**copy.deepcopy(bystander_init))
-                if start == 'loaded': o = Doc(**tree_copy(init))
+                ob = Doc(**kwargs('b_'))
+                if start == 'loaded': oa = Doc(**kwargs(''))
                 orm.flush()
-                by_pk = by.id
-                pk = o.id if start == 'loaded' else None
+                by_pk, pk_b = by.id, ob.id
+                pk_a = oa.id if start == 'loaded' else None
             for si in range(len(plan)):
                 steps_out = []
                 self.case['sessions'].append(steps_out)
@@ -676,22 +870,20 @@ class CaseRun(object):
                 with orm.db_session:
                     by = Doc[by_pk]
                     by.data['bystander'][1]['x']          # loaded and read
+                    ob = Doc[pk_b]
                     if creating:
-                        obj = Doc(**tree_copy(init))
+                        oa = Doc(**kwargs(''))
                         self.pending_insert = True
                         readonly = False
+                        obj = Pair(oa, ob)
                     else:
-                        obj = Doc[pk]
-                        # M3: fresh-session read equals the plain copy
-                        self.count('monitor.fresh_session_reads')
-                        for a in ATTRS:
-                            if not self.same(getattr(obj, a), getattr(plain, a)):
-                                raise Mismatch('fresh_session_value', {'attr': a, 'session': si,
-                                               'read': untracked_view(env.TrackedValue, getattr(obj, a)),
-                                               'plain': getattr(plain, a)})
-                        # follow the key order the database gives back (popitem/iteration order is order dependent)
-                        for a in ATTRS:
-                            setattr(plain, a, copy.deepcopy(untracked_view(env.TrackedValue, getattr(obj, a))))
+                        oa = Doc[pk_a]
+                        obj = Pair(oa, ob)
+                        fresh_check(obj, si)
+                    # follow the key order the database gives back (popitem/iteration order is order dependent)
+                    for a in ATTRS:
+                        if creating and not a.startswith('b_'): continue
+                        setattr(plain, a, copy.deepcopy(untracked_view(TV, getattr(obj, a))))
                     n = len(sessions[si]) if sessions is not None else plan[si]['n']
                     for i in range(n):
                         st = sessions[si][i] if sessions is not None else tree_copy(self.next_step(plan[si], i, plain))
@@ -701,18 +893,29 @@ class CaseRun(object):
                             readonly = False
                             oc = self.do_mut(obj, plain, st)
                             self.fp.append(('m', st['attr'], len(st['path']), st.get('form'), st['op'],
-                                            st.get('argkind'), sorted(st.get('kw', {})), oc))
+                                            st.get('argkind'), sorted(st.get('kw', {})), copy_class(st), oc))
                         elif k == 'read':
                             oc = self.do_read(obj, plain, st)
                             self.fp.append(('r', st['attr'], len(st['path']), st['op'], oc))
                         elif k == 'assign':
                             readonly = False
-                            setattr(obj, st['attr'], tree_copy(st['value']))
-                            setattr(plain, st['attr'], tree_copy(st['value']))
+                            if st.get('ref') is not None:
+                                x = {'$ref': st['ref']}
+                                other = obj._a if obj.ent(st['attr']) is obj._b else obj._b
+                                ob4 = (other._status_, other._wbits_)
+                                pv = mat(plain, x, None)
+                                setattr(obj, st['attr'], mat(obj, x, None))     # e.g. b.data = a.data
+                                setattr(plain, st['attr'], pv)
+                                if (other._status_, other._wbits_) != ob4:
+                                    raise Mismatch('other_object_marked', {'step': st})
+                                self.count('xcopy.' + copy_class(st)); self.count('xcopy.whole_value')
+                            else:
+                                setattr(obj, st['attr'], tree_copy(st['value']))
+                                setattr(plain, st['attr'], tree_copy(st['value']))
                             self.dirty[st['attr']] = True
                             self.n_mut_ok += 1
                             self.count('outcome.assign_ok')
-                            self.fp.append(('a', st['attr']))
+                            self.fp.append(('a', st['attr'], copy_class(st), len((st.get('ref') or [0, []])[1])))
                         elif k == 'flush':
                             readonly = False
                             orm.flush()
@@ -723,38 +926,33 @@ class CaseRun(object):
                             orm.commit()
                             self.model_flush(plain)
                             self.fp.append('c')
-                            if pk is None: pk = obj.id
-                            if not self.commit_point(pk, plain, 'commit() in session %d step %d' % (si, i)):
+                            if pk_a is None: pk_a = oa.id
+                            if not self.commit_point((pk_a, pk_b), plain, 'commit() in session %d step %d' % (si, i)):
                                 raise _Stop()
                         self.check_in_session(obj, plain, 'session %d step %d' % (si, i))
                     if readonly:
-                        if obj._status_ != 'loaded':
-                            raise Mismatch('readonly_session_status', {'session': si, 'status': obj._status_})
+                        for e in (oa, ob):
+                            if e._status_ != 'loaded':
+                                raise Mismatch('readonly_session_status', {'session': si, 'status': e._status_})
                     if by._status_ != 'loaded':
                         raise Mismatch('bystander_status', {'session': si, 'status': by._status_})
-                    status_at_exit = obj._status_
                 # session exit committed
                 self.model_flush(plain)
                 self.fp.append('x')
-                if pk is None: pk = obj.id
+                if pk_a is None: pk_a = oa.id
                 w = env.writes_since(mark)
                 if readonly:
                     self.count('monitor.readonly_sessions')
                     if w: raise Mismatch('readonly_session_wrote', {'session': si, 'sql': w[:3]})
                 else:
                     self.count('monitor.write_statements_seen', len(w))
-                if not self.commit_point(pk, plain, 'exit of session %d' % si):
+                if not self.commit_point((pk_a, pk_b), plain, 'exit of session %d' % si):
                     raise _Stop()
             # final fresh session through Pony
             with orm.db_session:
-                obj = Doc[pk]
-                self.count('monitor.fresh_session_reads')
-                for a in ATTRS:
-                    if not self.same(getattr(obj, a), getattr(plain, a)):
-                        raise Mismatch('fresh_session_value', {'attr': a, 'session': 'final',
-                                       'read': untracked_view(env.TrackedValue, getattr(obj, a)), 'plain': getattr(plain, a)})
+                fresh_check(Pair(Doc[pk_a], Doc[pk_b]), 'final')
                 by = Doc[by_pk]
-                for a in ATTRS:
+                for a in bystander_init:
                     if not self.same(getattr(by, a), bystander_init[a]):
                         raise Mismatch('bystander_value', {'attr': a})
         except _Stop:
@@ -814,24 +1012,33 @@ def has_iter_insertion(case):
 
 def make_witness(case, info):
     """Witness with the case as JSON text (vlib.common.jsonable flattens deep nesting, which would break replays)."""
-    w = {'case_json': json.dumps(case), 'info_json': json.dumps(info, default=repr)}
+    try: info_json = json.dumps(info, default=repr)
+    except ValueError: info_json = json.dumps(repr(info)[:4000])        # circular structure on the Pony side
+    w = {'case_json': json.dumps(case), 'info_json': info_json}
     for k in ('where', 'attrs', 'step', 'attr', 'session'):
-        if isinstance(info, dict) and k in info: w[k] = json.dumps(info[k], default=repr)[:300]
+        if isinstance(info, dict) and k in info: w[k] = repr(info[k])[:300]
     steps = [st for sess in case['sessions'] for st in sess]
     w['n_steps'] = len(steps)
     w['program'] = [describe(st) for st in steps][-12:]
     return w
 
 
+def slot_src(slot, path=()):
+    return '%s.%s%s' % ('b' if slot.startswith('b_') else 'a', base(slot), ''.join('[%r]' % x for x in path))
+
+
 def describe(st):
-    """Readable Python-like rendering of one step (for witnesses and reports)."""
+    """Readable Python-like rendering of one step (for witnesses and reports); a and b are the two entity objects."""
     k = st['k']
     if k in ('flush', 'commit'): return k + '()'
-    if k == 'assign': return 'p.%s = %r' % (st['attr'], st['value'])
-    tgt = 'p.%s%s' % (st['attr'], ''.join('[%r]' % x for x in st['path']))
+    if k == 'assign':
+        if st.get('ref') is not None: return '%s = %s' % (slot_src(st['attr']), slot_src(*st['ref']))
+        return '%s = %r' % (slot_src(st['attr']), st['value'])
+    tgt = slot_src(st['attr'], st['path'])
     a = st.get('args', [])
     ak = st.get('argkind')
     def arg(x):
+        if isinstance(x, dict) and '$ref' in x: return slot_src(*x['$ref'])
         if ak == 'tuple': return repr(tuple(x))
         if ak in ('iter', 'pairs_iter'): return 'iter(%r)' % (x,)
         return repr(x)
@@ -850,7 +1057,7 @@ def describe(st):
         ks = '%s:%s:%s' % (key.start, key.stop, key.step) if isinstance(key, slice) else repr(key)
         return 'del %s[%s]' % (tgt, ks.replace('None', ''))
     kw = ', '.join('%s=%r' % kv for kv in sorted(st.get('kw', {}).items()))
-    args = ', '.join(arg(x) if op in ('extend', 'update') else repr(x) for x in a)
+    args = ', '.join(arg(x) for x in a)
     return '%s.%s(%s)' % (tgt, op, ', '.join(x for x in (args, kw) if x))
 
 
@@ -973,6 +1180,48 @@ def matrix_cases(rng):
             if sep == 'session': sessions = [[st], [m2, {'k': 'flush'}, m3]]
             else: sessions = [[st, {'k': sep}, m2, {'k': sep}, m3]]
             yield {'init': init, 'start': 'loaded', 'sessions': sessions}
+    # cross-object / cross-attribute copies: store a value READ from one slot in another, then change it in place
+    # through the destination, through the source, or both; every separator between the copy and the changes
+    base_init = {'data': {'name': 'template', 'opts': [1, 2], 'sub': {'k': [0]}}, 'data2': {'z': [9]}, 'ia': [1, 2, 3],
+                 'ia2': [7], 'sa': ['x'], 'fa': [1.5], 'b_data': {'name': 'other', 'opts': [], 'l': [0]},
+                 'b_data2': [], 'b_ia': [], 'b_ia2': [], 'b_sa': ['y', 'z'], 'b_fa': []}
+    def M(slot, path, op, *args): return {'k': 'mut', 'attr': slot, 'path': path, 'form': 'direct', 'op': op, 'args': list(args)}
+    copies = [
+        # (copy step, change through destination, change through source)
+        ({'k': 'assign', 'attr': 'b_data', 'ref': ['data', []]}, [M('b_data', [], 'setitem', 'name', 'copy'), M('b_data', ['opts'], 'append', 3)],
+         [M('data', ['opts'], 'append', 4), M('data', ['sub', 'k'], 'append', 5)]),
+        ({'k': 'assign', 'attr': 'data', 'ref': ['b_data', []]}, [M('data', ['l'], 'append', 3)], [M('b_data', ['l'], 'insert', 0, 4)]),
+        ({'k': 'assign', 'attr': 'b_data', 'ref': ['data', ['sub']]}, [M('b_data', ['k'], 'append', 3)], [M('data', ['sub', 'k'], 'append', 4)]),
+        ({'k': 'assign', 'attr': 'data2', 'ref': ['data', []]}, [M('data2', ['opts'], 'append', 3)], [M('data', ['opts'], 'pop')]),
+        ({'k': 'assign', 'attr': 'b_data2', 'ref': ['data', ['opts']]}, [M('b_data2', [], 'append', 3)], [M('data', ['opts'], 'reverse')]),
+        ({'k': 'assign', 'attr': 'b_ia', 'ref': ['ia', []]}, [M('b_ia', [], 'append', 4)], [M('ia', [], 'pop', 0)]),
+        ({'k': 'assign', 'attr': 'ia2', 'ref': ['ia', []]}, [M('ia2', [], 'append', 4)], [M('ia', [], 'sort', )]),
+        ({'k': 'assign', 'attr': 'b_ia2', 'ref': ['ia', []]}, [M('b_ia2', [], 'extend', [8, 9])], [M('ia', [], 'clear')]),
+        ({'k': 'assign', 'attr': 'sa', 'ref': ['b_sa', []]}, [M('sa', [], 'append', 'q')], [M('b_sa', [], 'remove', 'y')]),
+        ({'k': 'assign', 'attr': 'b_fa', 'ref': ['fa', []]}, [M('b_fa', [], 'append', 2.5)], [M('fa', [], 'insert', 0, 0.5)]),
+        ({'k': 'assign', 'attr': 'b_data', 'ref': ['ia', []]}, [M('b_data', [], 'append', 'x')], [M('ia', [], 'append', 4)]),
+        (M('b_data', [], 'setitem', 'x', {'$ref': ['data', ['sub']]}), [M('b_data', ['x', 'k'], 'append', 3)], [M('data', ['sub', 'k'], 'append', 4)]),
+        (M('b_data', [], 'setitem', 'x', {'$ref': ['data', []]}), [M('b_data', ['x', 'opts'], 'append', 3)], [M('data', ['opts'], 'append', 4)]),
+        (M('b_data', ['l'], 'append', {'$ref': ['data', ['opts']]}), [M('b_data', ['l', 1], 'append', 3)], [M('data', ['opts'], 'append', 4)]),
+        (M('b_data', ['l'], 'insert', 0, {'$ref': ['ia', []]}), [M('b_data', ['l', 0], 'append', 3)], [M('ia', [], 'append', 4)]),
+        (M('b_data', ['l'], 'extend', {'$ref': ['data', ['opts']]}), [M('b_data', ['l'], 'append', 3)], [M('data', ['opts'], 'append', 4)]),
+        (M('b_data', [], 'setdefault', 'x', {'$ref': ['data', ['sub']]}), [M('b_data', ['x', 'k'], 'append', 3)], [M('data', ['sub'], 'setitem', 'n', 1)]),
+        (M('b_data', [], 'update', {'$ref': ['data', []]}), [M('b_data', ['sub', 'k'], 'append', 3)], [M('data', ['sub', 'k'], 'append', 4)]),
+        (M('data2', [], 'setitem', 'x', {'$ref': ['data', ['sub']]}), [M('data2', ['x', 'k'], 'append', 3)], [M('data', ['sub', 'k'], 'append', 4)]),
+        (M('data', [], 'setitem', 'x', {'$ref': ['data', ['sub']]}), [M('data', ['x', 'k'], 'append', 3)], [M('data', ['sub', 'k'], 'append', 4)]),
+        (dict(M('b_data', ['l'], 'iadd', {'$ref': ['data', ['opts']]}), form='parent'), [M('b_data', ['l'], 'append', 3)], [M('data', ['opts'], 'append', 4)]),
+    ]
+    for cp, via_dst, via_src in copies:
+        for sep in ('none', 'flush', 'commit', 'session'):
+            for who in ('dst', 'src', 'both', 'both_rev'):
+                muts = {'dst': via_dst, 'src': via_src, 'both': via_dst + via_src, 'both_rev': via_src + via_dst}[who]
+                muts = tree_copy(muts)
+                if sep == 'session': sessions = [[tree_copy(cp)], muts, [{'k': 'read', 'attr': 'data', 'path': [], 'op': 'len', 'args': []}]]
+                elif sep == 'none': sessions = [[tree_copy(cp)] + muts]
+                else: sessions = [[tree_copy(cp), {'k': sep}] + muts + [{'k': sep}] + tree_copy(muts[:1])]
+                for start in ('loaded', 'created'):
+                    if start == 'created' and sep == 'session': continue
+                    yield {'init': tree_copy(base_init), 'start': start, 'sessions': sessions}
     # dict-side inserting ops followed by nested mutation
     for ins in ('setitem', 'update', 'update_pairs', 'update_pairs_iter', 'update_kw', 'setdefault', 'ior', 'ior_pairs'):
         for sep in ('flush', 'commit'):
@@ -1018,12 +1267,12 @@ def run(ctx):
             n += 1
             ctx.count('matrix_cases')
         # 2. random multi-session histories
-        total = 12000 if ctx.tier == 'quick' else 30000
+        total = 8000 if ctx.tier == 'quick' else 20000
         for i in range(total):
             run_one(env, ctx, rng=rng, sample=(i % 401 == 0))
             ctx.count('random_cases')
         # 3. read-only histories (M4 is the deciding monitor for the second sentence of the property)
-        total_ro = 2000 if ctx.tier == 'quick' else 4000
+        total_ro = 1500 if ctx.tier == 'quick' else 3000
         for i in range(total_ro):
             plan = [{'readonly': True, 'n': rng.choice((2, 4, 8, 12))} for _ in range(rng.choice((1, 2)))]
             run_one(env, ctx, rng=rng, plan=plan, start='loaded', sample=(i % 251 == 0))
@@ -1033,16 +1282,21 @@ def run(ctx):
     ctx.extra['executed_on'] = ['sqlite']
     # floors are per process (each shard of the thorough tier evaluates them on its own counters)
     k = 1 if ctx.tier == 'quick' else 2
-    ctx.floor('monitor.commit_points', 10000 * k)
-    ctx.floor('outcome.mut_ok', 12000 * k)
-    ctx.floor('monitor.readonly_sessions', 2000 * k)
-    ctx.floor('monitor.reads', 12000 * k)
-    ctx.floor('monitor.fresh_session_reads', 10000 * k)
-    ctx.floor('mut_form.alias', 300 * k)
-    ctx.floor('mut_form.parent', 600 * k)
-    ctx.floor('mut_depth_ge2', 2000 * k)
-    ctx.floor('mut_on_array', 3000 * k)
-    ctx.floor('matrix_cases', 500 // ctx.nshards)
+    ctx.floor('monitor.commit_points', 8000 * k)
+    ctx.floor('outcome.mut_ok', 10000 * k)
+    ctx.floor('monitor.readonly_sessions', 1500 * k)
+    ctx.floor('monitor.reads', 8000 * k)
+    ctx.floor('monitor.fresh_session_reads', 8000 * k)
+    ctx.floor('mut_form.alias', 200 * k)
+    ctx.floor('mut_form.parent', 400 * k)
+    ctx.floor('mut_depth_ge2', 1500 * k)
+    ctx.floor('mut_on_array', 2500 * k)
+    ctx.floor('matrix_cases', 1000 // ctx.nshards)
+    ctx.floor('xcopy.cross_object', 600 * k)
+    ctx.floor('xcopy.cross_attr', 400 * k)
+    ctx.floor('xcopy.whole_value', 600 * k)
+    ctx.floor('xcopy.nested_insert', 600 * k)
+    ctx.floor('mut_on_second_object', 3000 * k)
 
 
 def replay(ctx, witness):
